@@ -492,9 +492,9 @@ func (in *inst) checkpoint(n *vnode, st *State, pos token.Pos, callok string) {
 	if !in.top || fv.ct == nil || len(fv.ct.Maintain) == 0 || st.reach == "false" {
 		return
 	}
-	in.at = n.blk
+	in.at, in.atNode = n.blk, n
 	ce := in.baseEnv(st)
-	in.at = nil
+	in.at, in.atNode = nil, nil
 	ce.vars["callok"] = bval(callok)
 	for _, m := range fv.ct.Maintain {
 		t := ce.evalGoal(m.Expr)
@@ -1217,9 +1217,9 @@ func (in *inst) loopWrites(l *loopInfo) (keys map[string]*writeShape, anything b
 
 // headerEnv builds the variable environment for loop clauses at header l.
 func (in *inst) headerEnv(n *vnode, l *loopInfo, phiVals map[*ssa.Phi]Val, st *State) *cenv {
-	in.at = l.header
+	in.at, in.atNode = l.header, n
 	ce := in.baseEnv(st)
-	in.at = nil
+	in.at, in.atNode = nil, nil
 	for _, ins := range l.header.Instrs {
 		phi, ok := ins.(*ssa.Phi)
 		if !ok {
@@ -1321,7 +1321,7 @@ func (in *inst) baseEnv(st *State) *cenv {
 			}
 		}
 		if len(cand) == 1 {
-			if v, ok := in.vals[cand[0]]; ok {
+			if v, ok := in.nodeVal(cand[0]); ok {
 				ce.vars[name] = v
 			} else if c, ok := cand[0].(*ssa.Const); ok {
 				ce.vars[name] = fv.constVal(c)
@@ -1704,4 +1704,16 @@ func (fv *FnVC) pureDyn(st *State, f Val, sig *types.Signature, args []Val, i in
 		fv.assumeWF(st, v)
 	}
 	return v, true
+}
+
+// nodeVal: the value of an SSA name at the node a contract expression is
+// evaluated at (duplicated blocks keep their values per node).
+func (in *inst) nodeVal(v ssa.Value) (Val, bool) {
+	if in.atNode != nil {
+		if x, ok := in.atNode.env[v]; ok {
+			return x, true
+		}
+	}
+	x, ok := in.vals[v]
+	return x, ok
 }
